@@ -252,7 +252,8 @@ module named in the import is renamed by `derive_module_name`; a callee of the s
 target for the import to be renamed; otherwise `USE s, ONLY: l` stays and the renamed call has no import -/
 def depRef (suf : String) (dm newScope : String → String) (u r : Nm) : Nm :=
   match r with
-  | .proc s l => if s == "" then .proc "" (l ++ suf)
+  | .proc s l => if l.endsWith suf then r      -- `rename_calls`: a name that already ends with the suffix is left alone
+                 else if s == "" then .proc "" (l ++ suf)
                  else if s == u.scope then .proc (newScope s) (l ++ suf)
                  else if replaceLast (l ++ suf) suf == l then .proc (dm s) (l ++ suf) else .proc "" (l ++ suf)
   | .mod m => .mod m
@@ -340,17 +341,6 @@ def isDup : Op → Bool | .dup _ _ _ _ => true | _ => false
 def isRem : Op → Bool | .rem _ => true | _ => false
 def isSub : Op → Bool | .dup _ s _ _ => s | _ => false
 
-/-- `DependencyTransformation` only as the last operation -/
-def depLast : List Op → Bool
-  | [] => true
-  | [_] => true
-  | op :: ops => !isDep op && depLast ops
-
-/-- plan mode: no duplication after a removal (the removal is recorded in `plan_data` of the original item only) -/
-def noDupAfterRem : List Op → Bool
-  | [] => true
-  | op :: ops => (!isRem op || !ops.any isDup) && noDupAfterRem ops
-
 /-- no routine with the role `driver` is called, and none shares its module with a kernel (known-finding class
 `driver-callee` otherwise) -/
 def noDriverCallee (ds : List Def) : Bool :=
@@ -358,7 +348,16 @@ def noDriverCallee (ds : List Def) : Bool :=
     (ds.all (fun e => d.name ∉ e.refs) &&
      ds.all (fun e => !(e.name.isProc && e.name.scope == d.name.scope && d.name.scope != "" && !e.driver))))
 
+/-- known-finding class `dep-module-suffix-changed`: the suffix renaming applied again with the same suffix but another
+module suffix (the module is renamed again, the routines and their imports are skipped by the idempotence tests) -/
+def depModSuffixChanged : List Op → Bool
+  | [] => false
+  | .dep s m :: ops => ops.any (fun o => match o with | .dep s' m' => s' == s && m' != m | _ => false) ||
+                       depModSuffixChanged ops
+  | _ :: ops => depModSuffixChanged ops
+
 def Covered (plan : Bool) (st : St) (ops : List Op) : Bool :=
-  splitLayout st.defs && noDriverCallee st.defs && ops.all opLower && !ops.any isSub && depLast ops && (!plan || noDupAfterRem ops)
+  splitLayout st.defs && noDriverCallee st.defs && ops.all opLower && !ops.any isSub &&
+  (plan || !depModSuffixChanged ops)
 
 end LokiModel.C25
